@@ -166,14 +166,21 @@ def load(reg):
             outs.append((s2, Raise(raising, origin="callee:handler", site="handler") if raising else mk_none()))
         return outs
     reg.specfun("call_field__method", call_method)
-    reg.contract("SimEvent.execute", params={},
-                 may_raise=[("DSOLError", "True")], on_raise="any", modifies=["heap.*"],
-                 # the event's own key never changes
-                 ensures=["same(self._absolute_time, old(self._absolute_time))", "self._priority == old(self._priority)",
-                          "self._id == old(self._id)"],
-                 exc_ensures=["same(self._absolute_time, old(self._absolute_time))", "self._priority == old(self._priority)",
-                              "self._id == old(self._id)"],
-                 preserves=[("DEVSSimulator", "RELY(x)")], props=C02 + C05, axiom_sets=AX)
+    # The simulator pops a SimEventInterface (its own isinstance check and type annotations say so; schedule_event accepts
+    # user-defined event classes): the contract the run loop and step rely on is the interface's -- execute may fail with
+    # ANY Exception.  SimEvent.execute refines it (its bare `except:` turns everything into DSOLError: verified on its
+    # body); Simulator.initialize, whose initial methods are SimEvents it created itself, uses the refined contract.
+    KEY = ["same(self._absolute_time, old(self._absolute_time))", "self._priority == old(self._priority)", "self._id == old(self._id)"]
+    for q, errs, abstract in (("SimEvent.execute", [("DSOLError", "True")], False),
+                              ("SimEventInterface.execute", [("DSOLError", "True"), ("Exception", "True")], True)):
+        reg.contract(q, params={}, may_raise=errs, on_raise="any", modifies=["heap.*"], abstract=abstract,
+                     # the event's own key never changes
+                     ensures=list(KEY), exc_ensures=list(KEY),
+                     preserves=[("DEVSSimulator", "RELY(x)")], props=C02 + C05, axiom_sets=AX)
+    for caller in ("DEVSSimulator._run", "DEVSSimulator._step_impl"):
+        reg.interface_call(caller, "SimEvent.execute", "SimEventInterface.execute")
+    reg.trust("SimEventInterface.execute (user-defined event classes): may raise any Exception, keeps the RELY condition like "
+              "every callback; the event's key fields are those of SimEvent (closed world for the data layout)")
 
     # ---- scheduling
     LS = "self._eventlist._event_list"
@@ -289,7 +296,8 @@ def load_run(reg):
     reg.contract("DEVSSimulator._step_impl", params={},
                  requires=["SINV(self)", "PWF(self)", NONTERM, "self._replication is not None",
                            "instance(self._replication, 'Replication')", "not isnan(%s)" % E, "self._simulator_time <= %s" % E],
-                 may_raise=[("CallbackError", "True"), ("DSOLError", "True")], on_raise="any",
+                 # the failure of the executed event passes through (step reports it): any Exception (interface contract)
+                 may_raise=[("CallbackError", "True"), ("DSOLError", "True"), ("Exception", "True")], on_raise="any",
                  ensures=["SINV(self)", "old(self._simulator_time) <= self._simulator_time", "self._simulator_time <= %s" % E,
                           "self._replication == old(self._replication) and replication_unchanged(self)",
                           # at most one event is executed: the minimum of the pending ones
